@@ -318,6 +318,79 @@ Definition effective (resumed : bool) (t : ticket) (h : hello) : hello :=
   | _, _ => h
   end.
 
+(* ---------- several outgoing dials of one host -------------------------------- *)
+
+(* NewTLSConn builds a fresh tls.Config for every call and makeVerifier's closure
+   (expected key, nonce) is stored in THAT config: the verifier state of a dial
+   is private to the dial.  crypto/tls reads VerifyPeerCertificate only when
+   the server's Certificate message arrives, i.e. possibly long after other
+   dials of the same host have started.
+   A host is modelled as the table of its dials' verifiers; [shared] = true is
+   NOT /repo: it is the variant in which all dials of a host write their
+   verifier into one configuration (the last one started wins), kept for the
+   refutation witness only. *)
+Inductive hev :=
+| HStart (id : nat) (e : key) (n : nonce)     (* dial [id] starts: makeVerifier(suite, e) draws n *)
+| HCert (id : nat) (h : hello).               (* the server's certificate arrives on dial [id] *)
+
+Record hstate := mkhost { h_dials : list (nat * (key * nonce)); h_last : option (key * nonce) }.
+Definition host0 := mkhost [] None.
+
+Fixpoint dial_lookup (id : nat) (l : list (nat * (key * nonce))) : option (key * nonce) :=
+  match l with
+  | [] => None
+  | (i, v) :: r => if i =? id then Some v else dial_lookup id r
+  end.
+
+Definition host_verifier (shared : bool) (st : hstate) (id : nat) : option (key * nonce) :=
+  if shared then h_last st else dial_lookup id (h_dials st).
+
+(* one event; a certificate event yields the verdict of that dial (None: the dial
+   never started -- no such connection) *)
+Definition host_step (shared : bool) (fx : fixes) (s : suite) (st : hstate) (ev : hev)
+  : hstate * option verdict :=
+  match ev with
+  | HStart id e n => (mkhost ((id, (e, n)) :: h_dials st) (Some (e, n)), None)
+  | HCert id h =>
+      (st, match host_verifier shared st id with
+           | Some (e, n) => Some (tls_handshake fx s 0 n (Some e) h)
+           | None => None
+           end)
+  end.
+
+Fixpoint host_run (shared : bool) (fx : fixes) (s : suite) (st : hstate) (evs : list hev) : hstate :=
+  match evs with
+  | [] => st
+  | ev :: r => host_run shared fx s (fst (host_step shared fx s st ev)) r
+  end.
+
+(* the scenario the harness forces: the honest host dials e (nonce 0; the link
+   under observation) and, before the certificate for that dial arrives, dials
+   [other] (nonce 4); then the peer answers the FIRST dial with h.  The link is
+   registered under the dialled identity e (Router.connect). *)
+Definition conc_nonce : nonce := 4.
+
+Definition conc_dial (shared : bool) (fx : fixes) (s : suite) (e other : key) (h : hello)
+           (msgs : nat) : outcome :=
+  let st := host_run shared fx s host0 [HStart 0 e 0; HStart 1 other conc_nonce] in
+  match snd (host_step shared fx s st (HCert 0 h)) with
+  | Some Accept => mkout true msgs (repeat e msgs) false
+  | _ => mkout false 0 [] false
+  end.
+
+(* the concurrent, honestly answered dial to [other] (certificate of a peer that
+   holds [other], over that dial's nonce) comes up *)
+Definition conc_other_up (shared : bool) (fx : fixes) (s : suite) (e other : key) (tk : tkey) : bool :=
+  let st := host_run shared fx s host0 [HStart 0 e 0; HStart 1 other conc_nonce] in
+  let c := mkcert (pub_to_cn other) [URI true true (pub_to_cn other)]
+                  (Some (SigBy other conc_nonce (pub_to_cn other)
+                               (if fix_bind fx then Some tk else None)))
+                  tk SgSelf (-300) 7200 true false in
+  match snd (host_step shared fx s st (HCert 1 (Hello [RawOne c] tk))) with
+  | Some Accept => true
+  | _ => false
+  end.
+
 (* ---------- the property, as a boolean checker over an OBSERVATION ---------- *)
 
 (* ground truth of a run: which private server keys the deviating peer holds,
